@@ -174,3 +174,13 @@ class RemovedOracle:
                 if id(c) in reachable:
                     return f"removed: node {w.rel(n)} was removed but still holds the live node {w.rel(c)} as child"
         return None
+
+
+def safe_obs(obs):
+    """The observation if it can be rendered as an sx term, else a marker the model can never produce
+    (a runaway deep copy - D06 - nests deeper than the renderer's recursion limit)."""
+    try:
+        H.sx(obs)
+        return obs
+    except RecursionError:
+        return [-3]
